@@ -7,7 +7,23 @@
 //!     state that does not depend on the enabled set, a fresh controller with that device alone);
 //!   * on every exit a mapped device has received nothing but a prefix of its own frames;
 //!   * devices mapped to no key, and disabled devices, are untouched (state, ack, no frame);
-//!   * `UnknownKey`/`UnusedKey` exactly when keys and datagrams do not match, nothing transmitted.
+//!   * `UnknownKey`/`UnusedKey` exactly when keys and datagrams do not match, nothing transmitted;
+//!   * every operation is packed for (into the slot of) the device it was generated for; the probe
+//!     gain writes that device's index into transducer 1, so frames and read-back show it;
+//!   * `datagram_option`: each generator is built with `is_parallel(|group|, its threshold)`, the frames
+//!     are packed on the rayon pool iff `is_parallel(enabled devices, smallest threshold)` (observed:
+//!     the thread `Operation::pack` runs on), and the call waits for acknowledgements like a send with
+//!     the largest timeout (observed under a link that withholds acknowledgements for k receives / for
+//!     good: receives per transmission, `Ok` vs `ConfirmResponseFailed`; timeouts are 0, 3 ms where
+//!     nothing ever arrives and 10 s where it does, so no answer depends on the machine's speed).
+//!
+//! Every datagram travels in a pass-through wrapper (`WithOpt`/`SpyGen`/`SpyOp`) that supplies an
+//! explicit `option()` and logs what `operation_generator` and `pack` are handed. Besides the probe
+//! gain / modulation the stream uses tuples `(ProbeMod, ProbeGain)` and `autd3_gain_holo::Naive`
+//! (oracle only), all four entry points, and HISTORIES: earlier calls on the same controller (the
+//! references of the oracle replay the same history). A history that leaves a packed, never
+//! transmitted frame in a tx slot is oracle-only; on the unchanged code it is a finding
+//! (`group:unsent-frame-delivered-later:*`, corpus).
 //!
 //! `HashMap` iteration order inside `group_send` cannot be chosen from outside; it is *observed*
 //! (probe datagrams log the order in which their generators are built) and every case is re-run on
@@ -16,20 +32,37 @@
 use crate::common::*;
 use autd3::link::{Audit, AuditOption};
 use autd3::prelude::*;
+use autd3_core::acoustics::directivity::Sphere;
 use autd3_core::derive::*;
 use autd3_core::link::{AsyncLink, Link, LinkError};
-use autd3_driver::datagram::{BoxedDatagram, IntoBoxedDatagram};
+use autd3_driver::datagram::{BoxedDatagram, Datagram, IntoBoxedDatagram};
 use autd3_driver::firmware::cpu::{RxMessage, TxMessage};
+use autd3_driver::firmware::operation::{Operation, OperationGenerator};
 use autd3_firmware_emulator::CPUEmulator;
+use autd3_gain_holo::{NalgebraBackend, Naive, NaiveOption, Pa};
 use std::collections::{BTreeMap, BTreeSet, HashMap};
 use std::sync::{Arc, Mutex};
-use std::time::Duration;
+use std::time::{Duration, Instant};
 
 // ------------------------------------------------------------------------------------------------
 // probe datagrams
 
-/// (key, enabled-mask seen by the generator — `None` for a modulation, which never sees the geometry)
-type VisitLog = Arc<Mutex<Vec<(u8, Option<u32>)>>>;
+/// what the probes see of one call
+#[derive(Default, Debug, Clone)]
+struct Logs {
+    /// per `Datagram::operation_generator` call: (key, enabled mask of the geometry handed in, `parallel` argument)
+    gens: Vec<(u8, u32, bool)>,
+    /// what `Gain::init_full` was told: (key, `parallel`)
+    gain_par: Vec<(u8, bool)>,
+    /// per `Operation::pack` call: (device the operation was generated for, device it is packed for,
+    /// called on another thread than the one that called `group_send` = the rayon pool)
+    packs: Vec<(usize, usize, bool)>,
+}
+type VisitLog = Arc<Mutex<Logs>>;
+
+fn enabled_mask(geometry: &Geometry) -> u32 {
+    geometry.iter().fold(0u32, |m, d| if d.enable { m | (1 << d.idx()) } else { m })
+}
 
 #[derive(Gain, Debug)]
 struct ProbeGain {
@@ -39,16 +72,18 @@ struct ProbeGain {
     log: VisitLog,
 }
 struct ProbeGen(Drive);
-struct ProbeCalc(Drive);
+/// every transducer carries (enabled mask seen by `init_full`, id); transducer 1 carries the index
+/// (+1) of the device the calculator was generated for instead of the mask
+struct ProbeCalc(Drive, u8);
 impl GainCalculator for ProbeCalc {
-    fn calc(&self, _: &Transducer) -> Drive {
-        self.0
+    fn calc(&self, tr: &Transducer) -> Drive {
+        if tr.idx() == 1 { Drive { phase: Phase(self.1), intensity: self.0.intensity } } else { self.0 }
     }
 }
 impl GainCalculatorGenerator for ProbeGen {
     type Calculator = ProbeCalc;
-    fn generate(&mut self, _: &Device) -> ProbeCalc {
-        ProbeCalc(self.0)
+    fn generate(&mut self, dev: &Device) -> ProbeCalc {
+        ProbeCalc(self.0, dev.idx() as u8 + 1)
     }
 }
 impl Gain for ProbeGain {
@@ -56,9 +91,9 @@ impl Gain for ProbeGain {
     fn init(self) -> Result<ProbeGen, GainError> {
         Err(GainError::new("probe: init() without geometry"))
     }
-    fn init_full(self, geometry: &Geometry, _: Option<&HashMap<usize, BitVec>>, _: bool) -> Result<ProbeGen, GainError> {
-        let mask = geometry.iter().fold(0u32, |m, d| if d.enable { m | (1 << d.idx()) } else { m });
-        self.log.lock().unwrap().push((self.key, Some(mask)));
+    fn init_full(self, geometry: &Geometry, _: Option<&HashMap<usize, BitVec>>, parallel: bool) -> Result<ProbeGen, GainError> {
+        let mask = enabled_mask(geometry);
+        self.log.lock().unwrap().gain_par.push((self.key, parallel));
         if self.fail {
             return Err(GainError::new(format!("probe:{}:", self.id)));
         }
@@ -71,12 +106,9 @@ struct ProbeMod {
     id: u8,
     len: usize,
     fail: bool,
-    key: u8,
-    log: VisitLog,
 }
 impl Modulation for ProbeMod {
     fn calc(self) -> Result<Vec<u8>, ModulationError> {
-        self.log.lock().unwrap().push((self.key, None));
         if self.fail {
             return Err(ModulationError::new(format!("probe:{}:", self.id)));
         }
@@ -87,45 +119,165 @@ impl Modulation for ProbeMod {
     }
 }
 
+/// Any datagram with (optionally) an explicit `option()`; logs the arguments of `operation_generator`
+/// and wraps every operation so that `pack` calls are logged.
+#[derive(Debug)]
+struct WithOpt<D> {
+    inner: D,
+    opt: Option<DatagramOption>,
+    key: u8,
+    log: VisitLog,
+}
+struct SpyGen<G> {
+    inner: G,
+    log: VisitLog,
+    main: std::thread::ThreadId,
+}
+struct SpyOp<O> {
+    inner: O,
+    gen_dev: usize,
+    log: VisitLog,
+    main: std::thread::ThreadId,
+}
+impl<O: Operation> Operation for SpyOp<O> {
+    type Error = O::Error;
+    fn required_size(&self, dev: &Device) -> usize {
+        self.inner.required_size(dev)
+    }
+    fn pack(&mut self, dev: &Device, tx: &mut [u8]) -> Result<usize, O::Error> {
+        self.log.lock().unwrap().packs.push((self.gen_dev, dev.idx(), std::thread::current().id() != self.main));
+        self.inner.pack(dev, tx)
+    }
+    fn is_done(&self) -> bool {
+        self.inner.is_done()
+    }
+}
+impl<G: OperationGenerator> OperationGenerator for SpyGen<G> {
+    type O1 = SpyOp<G::O1>;
+    type O2 = SpyOp<G::O2>;
+    fn generate(&mut self, dev: &Device) -> (Self::O1, Self::O2) {
+        let (a, b) = self.inner.generate(dev);
+        (
+            SpyOp { inner: a, gen_dev: dev.idx(), log: self.log.clone(), main: self.main },
+            SpyOp { inner: b, gen_dev: dev.idx(), log: self.log.clone(), main: self.main },
+        )
+    }
+}
+impl<D: Datagram> Datagram for WithOpt<D>
+where
+    D::G: OperationGenerator,
+{
+    type G = SpyGen<D::G>;
+    type Error = D::Error;
+    fn operation_generator(self, geometry: &Geometry, parallel: bool) -> Result<Self::G, Self::Error> {
+        self.log.lock().unwrap().gens.push((self.key, enabled_mask(geometry), parallel));
+        let log = self.log.clone();
+        Ok(SpyGen { inner: self.inner.operation_generator(geometry, parallel)?, log, main: std::thread::current().id() })
+    }
+    fn option(&self) -> DatagramOption {
+        self.opt.unwrap_or_else(|| self.inner.option())
+    }
+}
+
 #[derive(Clone, Copy, PartialEq, Eq, Debug, Hash, PartialOrd, Ord)]
 enum Kind {
     Gain,
     Mod,
+    /// `(ProbeMod, ProbeGain)`: both operations of the pair are used (oracle only: not in the model)
+    Tuple,
+    /// `autd3_gain_holo::Naive` with one focus: a real geometry-wide gain (oracle only)
+    Holo,
 }
+const THR_MAX: usize = usize::MAX;
 #[derive(Clone, Copy, PartialEq, Eq, Debug, Hash, PartialOrd, Ord)]
 struct DgSpec {
     kind: Kind,
     id: u8,
     len: usize,
     fail: bool,
+    /// explicit `Datagram::option()`: (timeout in ms, parallel threshold); `None` = what the datagram says itself
+    opt: Option<(u32, usize)>,
 }
 impl DgSpec {
     const fn g(id: u8) -> Self {
-        DgSpec { kind: Kind::Gain, id, len: 0, fail: false }
+        DgSpec { kind: Kind::Gain, id, len: 0, fail: false, opt: None }
     }
     const fn m(id: u8, len: usize) -> Self {
-        DgSpec { kind: Kind::Mod, id, len, fail: false }
+        DgSpec { kind: Kind::Mod, id, len, fail: false, opt: None }
+    }
+    const fn t(id: u8, len: usize) -> Self {
+        DgSpec { kind: Kind::Tuple, id, len, fail: false, opt: None }
+    }
+    const fn h(id: u8) -> Self {
+        DgSpec { kind: Kind::Holo, id, len: 0, fail: false, opt: None }
     }
     const fn failing(mut self) -> Self {
         self.fail = true;
         self
     }
+    const fn with(mut self, timeout_ms: u32, thr: usize) -> Self {
+        self.opt = Some((timeout_ms, thr));
+        self
+    }
+    /// id of the gain member of a tuple
+    fn tuple_gain_id(&self) -> u8 {
+        self.id.wrapping_add(100) | 1
+    }
     fn token(&self) -> String {
         let f = if self.fail { "!" } else { "" };
+        let o = match self.opt {
+            None => String::new(),
+            Some((t, p)) => format!("@t{t}p{}", if p == THR_MAX { "max".to_string() } else { p.to_string() }),
+        };
         match self.kind {
-            Kind::Gain => format!("g{}{f}", self.id),
-            Kind::Mod => format!("m{}.{}{f}", self.id, self.len),
+            Kind::Gain => format!("g{}{f}{o}", self.id),
+            Kind::Mod => format!("m{}.{}{f}{o}", self.id, self.len),
+            Kind::Tuple => format!("t{}.{}{f}{o}", self.id, self.len),
+            Kind::Holo => format!("h{}{f}{o}", self.id),
         }
     }
+    /// (timeout ms, parallel threshold) that `option()` reports
+    fn option(&self) -> (u32, usize) {
+        self.opt.unwrap_or(match self.kind {
+            // `#[derive(Gain)]`: 20 ms / 4; `#[derive(Modulation)]`: the default 200 ms / usize::MAX; tuple: max / min
+            Kind::Gain | Kind::Holo => (20, 4),
+            Kind::Mod => (200, THR_MAX),
+            Kind::Tuple => (200, 4),
+        })
+    }
     fn build(&self, key: u8, log: &VisitLog) -> BoxedDatagram {
+        let opt = self.opt.map(|(t, p)| DatagramOption { timeout: Duration::from_millis(t as u64), parallel_threshold: p });
+        let log = log.clone();
         match self.kind {
-            Kind::Gain => ProbeGain { id: self.id, fail: self.fail, key, log: log.clone() }.into_boxed(),
-            Kind::Mod => ProbeMod { id: self.id, len: self.len, fail: self.fail, key, log: log.clone() }.into_boxed(),
+            Kind::Gain => WithOpt { inner: ProbeGain { id: self.id, fail: self.fail, key, log: log.clone() }, opt, key, log }.into_boxed(),
+            Kind::Mod => WithOpt { inner: ProbeMod { id: self.id, len: self.len, fail: self.fail }, opt, key, log }.into_boxed(),
+            Kind::Tuple => WithOpt {
+                inner: (ProbeMod { id: self.id, len: self.len, fail: false }, ProbeGain { id: self.tuple_gain_id(), fail: self.fail, key, log: log.clone() }),
+                opt,
+                key,
+                log,
+            }
+            .into_boxed(),
+            Kind::Holo => WithOpt {
+                inner: Naive::new(
+                    [(Point3::new(20.0 + self.id as f32, 40.0 + (self.id % 7) as f32 * 10.0, 150.0), 5e3 * Pa)],
+                    NaiveOption::<Sphere>::default(),
+                    Arc::new(NalgebraBackend::<Sphere>::new()),
+                ),
+                opt,
+                key,
+                log,
+            }
+            .into_boxed(),
         }
     }
     /// the datagram can neither fail when its generator is built nor when it is packed
     fn healthy(&self) -> bool {
-        !self.fail && (self.kind == Kind::Gain || (2..=65536).contains(&self.len))
+        !self.fail && (matches!(self.kind, Kind::Gain | Kind::Holo) || (2..=65536).contains(&self.len))
+    }
+    /// the Lean model knows the datagram
+    fn modelled(&self) -> bool {
+        matches!(self.kind, Kind::Gain | Kind::Mod)
     }
 }
 
@@ -139,6 +291,10 @@ enum Fault {
     Send(usize),
     /// the `Link::receive` that follows the `s`-th successful `send` returns `Err`
     Recv(usize),
+    /// after every `send` the first `k` `receive`s still return the acknowledgements from before that send
+    Delay(usize),
+    /// from the `s`-th `send` on, `receive` keeps returning the acknowledgements from before that send
+    NoAck(usize),
 }
 impl Fault {
     fn token(&self) -> String {
@@ -146,7 +302,12 @@ impl Fault {
             Fault::None => "none".into(),
             Fault::Send(s) => format!("s{s}"),
             Fault::Recv(s) => format!("r{s}"),
+            Fault::Delay(k) => format!("d{k}"),
+            Fault::NoAck(s) => format!("n{s}"),
         }
+    }
+    fn withholds(&self) -> bool {
+        matches!(self, Fault::Delay(_) | Fault::NoAck(_))
     }
 }
 
@@ -160,6 +321,13 @@ struct FaultLink {
     frames_of: Vec<usize>,
     /// per successful `send`: the devices whose frame is new (msg id changed) and what it carries
     rounds: Vec<Vec<String>>,
+    /// per successful `send`: how often `receive` was called before the next `send` / the return
+    polls: Vec<usize>,
+    /// what the last not-withheld `receive` returned
+    last_rx: Vec<RxMessage>,
+    /// acknowledgements from before the current `send` (withholding faults)
+    held: Vec<RxMessage>,
+    withhold: bool,
 }
 impl FaultLink {
     fn new() -> Self {
@@ -172,6 +340,10 @@ impl FaultLink {
             last_ids: vec![],
             frames_of: vec![],
             rounds: vec![],
+            polls: vec![],
+            last_rx: vec![],
+            held: vec![],
+            withhold: false,
         }
     }
     fn arm(&mut self, fault: Fault) {
@@ -179,13 +351,16 @@ impl FaultLink {
         self.fault = fault;
         self.sends = 0;
         self.recv_pending_fail = false;
+        self.withhold = false;
         self.rounds.clear();
+        self.polls.clear();
         self.frames_of.iter_mut().for_each(|c| *c = 0);
     }
     fn disarm(&mut self) {
         self.armed = false;
         self.fault = Fault::None;
         self.recv_pending_fail = false;
+        self.withhold = false;
     }
     fn cpus(&self) -> &[CPUEmulator] {
         &self.inner
@@ -209,6 +384,14 @@ impl FaultLink {
             if self.fault == Fault::Recv(s) {
                 self.recv_pending_fail = true;
             }
+            self.withhold = match self.fault {
+                Fault::Delay(_) => true,
+                Fault::NoAck(from) => s >= from,
+                _ => false,
+            } && self.last_rx.len() == tx.len();
+            if self.withhold && !(matches!(self.fault, Fault::NoAck(from) if s > from)) {
+                self.held = self.last_rx.clone();
+            }
             let mut round = vec![];
             for (i, t) in tx.iter().enumerate() {
                 if t.header.msg_id != self.last_ids[i] {
@@ -216,7 +399,8 @@ impl FaultLink {
                     let k = self.frames_of[i];
                     self.frames_of[i] += 1;
                     let what = match p[0] {
-                        0x30 => format!("g{}.{}", p[5], p[4]),
+                        // transducer 0: (mask, id); transducer 1: (device + 1, id)
+                        0x30 => format!("g{}.{}.{}", p[5], p[4], p[6]),
                         0x10 => {
                             let begin = p[1] & 1 != 0;
                             let end = p[1] & 2 != 0;
@@ -229,6 +413,7 @@ impl FaultLink {
                 }
             }
             self.rounds.push(round);
+            self.polls.push(0);
         }
         for (i, t) in tx.iter().enumerate() {
             self.last_ids[i] = t.header.msg_id;
@@ -236,11 +421,39 @@ impl FaultLink {
         <Audit as Link>::send(&mut self.inner, tx)
     }
     fn do_receive(&mut self, rx: &mut [RxMessage]) -> Result<(), LinkError> {
+        if self.armed {
+            if let Some(p) = self.polls.last_mut() {
+                *p += 1;
+            }
+        }
         if self.armed && self.recv_pending_fail {
             self.recv_pending_fail = false;
             return Err(LinkError::new("fault"));
         }
-        <Audit as Link>::receive(&mut self.inner, rx)
+        if self.armed && self.fault.withholds() {
+            // `wait_msg_processed` compares `start.elapsed()` with the timeout after this call: make sure
+            // the clock has moved, so that a zero timeout has elapsed whatever the clock resolution is
+            let t0 = Instant::now();
+            while Instant::now() == t0 {
+                std::hint::spin_loop();
+            }
+        }
+        <Audit as Link>::receive(&mut self.inner, rx)?;
+        let polls = self.polls.last().copied().unwrap_or(0);
+        let hold = self.armed
+            && self.withhold
+            && self.held.len() == rx.len()
+            && match self.fault {
+                Fault::Delay(k) => polls <= k,
+                Fault::NoAck(_) => true,
+                _ => false,
+            };
+        if hold {
+            rx.copy_from_slice(&self.held);
+        } else {
+            self.last_rx = rx.to_vec();
+        }
+        Ok(())
     }
 }
 impl Link for FaultLink {
@@ -286,7 +499,7 @@ impl AsyncLink for FaultLink {
 enum Api {
     /// `Controller::sender(opt).group_send` (sync copy)
     Sync,
-    /// `Controller::group_send` shortcut (sync copy)
+    /// `Controller::group_send` shortcut (sync copy): default `SenderOption` (1 ms intervals, `timeout: None`, `ParallelMode::Auto`)
     SyncCtl,
     /// `r#async::Controller::sender(opt).group_send` on a current-thread tokio runtime
     Async,
@@ -305,6 +518,40 @@ impl Api {
     fn is_async(&self) -> bool {
         matches!(self, Api::Async | Api::AsyncCtl)
     }
+    fn is_ctl(&self) -> bool {
+        matches!(self, Api::SyncCtl | Api::AsyncCtl)
+    }
+}
+
+#[derive(Clone, Copy, PartialEq, Eq, Debug)]
+enum PM {
+    Auto,
+    On,
+    Off,
+}
+impl PM {
+    fn token(&self) -> &'static str {
+        match self {
+            PM::Auto => "auto",
+            PM::On => "on",
+            PM::Off => "off",
+        }
+    }
+    fn mode(&self) -> ParallelMode {
+        match self {
+            PM::Auto => ParallelMode::Auto,
+            PM::On => ParallelMode::On,
+            PM::Off => ParallelMode::Off,
+        }
+    }
+    /// `ParallelMode::is_parallel` as documented: forced, or more (enabled) devices than the threshold
+    fn is_parallel(&self, num_devices: usize, thr: usize) -> bool {
+        match self {
+            PM::On => true,
+            PM::Off => false,
+            PM::Auto => num_devices > thr,
+        }
+    }
 }
 
 #[derive(Clone, Debug)]
@@ -314,7 +561,14 @@ struct Case {
     map: Vec<(u8, DgSpec)>,
     fault: Fault,
     api: Api,
-    parallel: bool,
+    /// `SenderOption::parallel` (the shortcut apis always run with `Auto`)
+    pm: PM,
+    /// `SenderOption::timeout` in ms (the shortcut apis always run with `None` = the datagrams decide)
+    to: Option<u32>,
+    /// `Some(d)`: not a `group_send` but a plain `send(d)` (history steps only)
+    plain: Option<DgSpec>,
+    /// calls made on the same controller before the observed one (each with its own enable mask)
+    hist: Vec<Case>,
 }
 fn bits(v: &[bool]) -> String {
     v.iter().map(|&b| if b { '1' } else { '0' }).collect()
@@ -332,30 +586,57 @@ impl Case {
     fn map_token(&self) -> String {
         join(&self.map.iter().map(|(k, d)| format!("{k}={}", d.token())).collect::<Vec<_>>(), ",")
     }
+    fn pm_eff(&self) -> PM {
+        if self.api.is_ctl() { PM::Auto } else { self.pm }
+    }
+    fn to_eff(&self) -> Option<u32> {
+        if self.api.is_ctl() { None } else { self.to }
+    }
+    fn to_token(&self) -> String {
+        self.to_eff().map(|t| t.to_string()).unwrap_or("none".into())
+    }
+    /// this step alone, without iteration order and history
+    fn step_sig(&self) -> String {
+        match self.plain {
+            Some(d) => format!("ps n={} en={} dg={} fault={} api={} to={} pm={}", self.n(), bits(&self.en), d.token(), self.fault.token(), self.api.token(), self.to_token(), self.pm_eff().token()),
+            None => format!(
+                "n={} en={} km={} map={} fault={} api={} to={} pm={}",
+                self.n(),
+                bits(&self.en),
+                self.km_token(),
+                self.map_token(),
+                self.fault.token(),
+                self.api.token(),
+                self.to_token(),
+                self.pm_eff().token()
+            ),
+        }
+    }
+    fn hist_sig(&self) -> String {
+        if self.hist.is_empty() { String::new() } else { format!("after[{}] ", self.hist.iter().map(|h| h.step_sig()).collect::<Vec<_>>().join(" ; ")) }
+    }
     /// everything but the iteration order
     fn sig(&self) -> String {
-        format!(
-            "n={} en={} km={} map={} fault={} api={}{}",
-            self.n(),
-            bits(&self.en),
-            self.km_token(),
-            self.map_token(),
-            self.fault.token(),
-            self.api.token(),
-            if self.parallel { "+par" } else { "" }
-        )
+        format!("{}{}", self.hist_sig(), self.step_sig())
     }
-    fn line(&self, order: &[u8]) -> String {
-        format!(
-            "gs n={} en={} km={} map={} order={} fault={} api={}",
-            self.n(),
-            bits(&self.en),
-            self.km_token(),
-            self.map_token(),
-            join(order, ","),
-            self.fault.token(),
-            self.api.token()
-        )
+    /// the op line of this step (`cont`: on the controller of the previous line)
+    fn line(&self, order: &[u8], cont: bool) -> String {
+        let c = if cont { " cont=1" } else { "" };
+        match self.plain {
+            Some(d) => format!("ps n={} en={} dg={} fault={} api={} to={} pm={}{c}", self.n(), bits(&self.en), d.token(), self.fault.token(), self.api.token(), self.to_token(), self.pm_eff().token()),
+            None => format!(
+                "gs n={} en={} km={} map={} order={} fault={} api={} to={} pm={}{c}",
+                self.n(),
+                bits(&self.en),
+                self.km_token(),
+                self.map_token(),
+                join(order, ","),
+                self.fault.token(),
+                self.api.token(),
+                self.to_token(),
+                self.pm_eff().token()
+            ),
+        }
     }
     /// keys that some enabled device is mapped to, ascending
     fn used_keys(&self) -> Vec<u8> {
@@ -367,6 +648,29 @@ impl Case {
     }
     fn group_mask(&self, k: u8) -> Vec<bool> {
         (0..self.n()).map(|i| self.en[i] && self.km[i] == Some(k)).collect()
+    }
+    /// keys and datagrams match and no datagram can fail
+    fn healthy(&self) -> bool {
+        let used = self.used_keys();
+        used.iter().all(|k| self.dg(*k).is_some()) && self.map.iter().all(|(k, d)| used.contains(k) && d.healthy())
+    }
+    /// the step can be handed to the Lean model
+    fn step_modelled(&self) -> bool {
+        match self.plain {
+            Some(d) => d.modelled(),
+            None => self.map.iter().all(|(_, d)| d.modelled()),
+        }
+    }
+    /// the step may leave a packed frame in a `tx` slot that was never transmitted (the model keeps no `tx` buffer)
+    fn may_leave_unsent_frames(&self) -> bool {
+        matches!(self.fault, Fault::Send(_)) || self.map.iter().any(|(_, d)| !d.fail && !d.healthy()) || self.plain.map(|d| !d.fail && !d.healthy()).unwrap_or(false)
+    }
+    fn modelled(&self) -> bool {
+        self.step_modelled() && self.hist.iter().all(|h| h.step_modelled() && !h.may_leave_unsent_frames())
+    }
+    /// what `send_impl` must use as timeout (ms) once every datagram of the map was consumed
+    fn eff_timeout(&self) -> u32 {
+        self.to_eff().unwrap_or_else(|| self.map.iter().map(|(_, d)| d.option().0).max().unwrap_or(0))
     }
 }
 
@@ -399,15 +703,18 @@ impl Snap {
             ack: cpu.rx().ack(),
         }
     }
-    /// the compact form compared with the model: `g<intensity>.<phase>/m<first sample>.<length>`
+    /// the compact form compared with the model:
+    /// `g<intensity>.<phase of transducer 0 = mask>.<phase of transducer 1 = device + 1>/m<first sample>.<length>`
     fn obs(&self) -> String {
         let uni = |v: &[u8]| v.iter().all(|&x| x == v[0]);
-        let q = if uni(&self.intensities) && uni(&self.phases) && uni(&self.modulation) { "" } else { "?" };
-        format!("g{}.{}/m{}.{}{q}", self.intensities[0], self.phases[0], self.modulation[0], self.modulation.len())
+        let uni_but_1 = |v: &[u8]| v.iter().enumerate().all(|(i, &x)| i == 1 || x == v[0]);
+        // (a modulation cut short over an older, longer one legitimately leaves a mixed buffer)
+        let q = if uni(&self.intensities) && uni_but_1(&self.phases) { "" } else { "?" };
+        format!("g{}.{}.{}/m{}.{}{q}", self.intensities[0], self.phases[0], self.phases[1], self.modulation[0], self.modulation.len())
     }
     /// the part of the state that does not depend on which other devices were enabled, ack aside
-    fn core(&self) -> (Vec<u8>, bool, usize, u8, Vec<u8>, u16, u8) {
-        (self.intensities.clone(), self.gain_mode, self.stm_cycle, self.req_stm, self.modulation.clone(), self.mod_div, self.req_mod)
+    fn core(&self) -> (Vec<u8>, u8, bool, usize, u8, Vec<u8>, u16, u8) {
+        (self.intensities.clone(), self.phases[1], self.gain_mode, self.stm_cycle, self.req_stm, self.modulation.clone(), self.mod_div, self.req_mod)
     }
     fn no_ack(&self) -> Snap {
         Snap { ack: 0, ..self.clone() }
@@ -416,11 +723,16 @@ impl Snap {
 
 struct RunOut {
     result: String,
+    /// results of the history steps
+    hist_results: Vec<String>,
     before: Vec<bool>,
     after: Vec<bool>,
-    /// keys whose generator was built, in order, with the mask each saw
-    visited: Vec<(u8, Option<u32>)>,
+    /// `operation_generator` calls of the observed step, in order: (key, enabled mask handed in, `parallel`)
+    visited: Vec<(u8, u32, bool)>,
+    gain_par: Vec<(u8, bool)>,
+    packs: Vec<(usize, usize, bool)>,
     rounds: Vec<Vec<String>>,
+    polls: Vec<usize>,
     snap_before: Vec<Snap>,
     snap_after: Vec<Snap>,
 }
@@ -435,13 +747,27 @@ impl RunOut {
         }
         o
     }
-    fn answers(&self) -> [String; 5] {
+    /// `-` nothing packed, `0`/`1` every `pack` on the calling thread / on a pool thread, `?` both
+    fn final_parallel(&self) -> &'static str {
+        match (self.packs.iter().any(|p| p.2), self.packs.iter().any(|p| !p.2)) {
+            (false, false) => "-",
+            (true, false) => "1",
+            (false, true) => "0",
+            (true, true) => "?",
+        }
+    }
+    fn polls_token(&self) -> String {
+        let n = self.polls.len();
+        join(&self.polls.iter().enumerate().map(|(i, p)| if self.result == "err:confirm" && i + 1 == n { "*".to_string() } else { p.to_string() }).collect::<Vec<_>>(), ",")
+    }
+    fn answers(&self) -> [String; 6] {
         [
             format!("R {}", self.result),
             format!("E {}>{}", bits(&self.before), bits(&self.after)),
             format!("V {}", join(&self.visited.iter().map(|v| v.0).collect::<Vec<_>>(), ",")),
             format!("F {}", join(&self.rounds.iter().map(|r| if r.is_empty() { ".".to_string() } else { r.join(" ") }).collect::<Vec<_>>(), " | ")),
             format!("O {}", join(&self.snap_after.iter().map(|s| s.obs()).collect::<Vec<_>>(), " ")),
+            format!("P {} final={} polls={}", join(&self.visited.iter().map(|v| format!("{}:{}", v.0, v.2 as u8)).collect::<Vec<_>>(), ","), self.final_parallel(), self.polls_token()),
         ]
     }
 }
@@ -454,25 +780,30 @@ fn canon_err(e: &AUTDError) -> String {
             v.sort();
             format!("err:unused:{}", join(&v, ","))
         }
-        AUTDError::Driver(AUTDDriverError::Gain(_)) | AUTDError::Driver(AUTDDriverError::Modulation(_)) => {
+        AUTDError::Driver(d) => canon_derr(d),
+        e => format!("err:other:{}", format!("{e:?}").replace(' ', "_")),
+    }
+}
+fn canon_derr(e: &AUTDDriverError) -> String {
+    match e {
+        AUTDDriverError::Gain(_) | AUTDDriverError::Modulation(_) => {
             let s = format!("{e:?}");
             let id = s.split("probe:").nth(1).and_then(|t| t.split(':').next()).unwrap_or("?").to_string();
             format!("err:gen:{id}")
         }
-        AUTDError::Driver(AUTDDriverError::ModulationSizeOutOfRange(_)) => "err:pack".into(),
-        AUTDError::Driver(AUTDDriverError::Link(l)) => if format!("{l:?}").contains("watchdog") { "err:livelock".into() } else { "err:link".into() },
+        AUTDDriverError::ModulationSizeOutOfRange(_) => "err:pack".into(),
+        AUTDDriverError::ConfirmResponseFailed => "err:confirm".into(),
+        AUTDDriverError::Link(l) => if format!("{l:?}").contains("watchdog") { "err:livelock".into() } else { "err:link".into() },
         e => format!("err:other:{}", format!("{e:?}").replace(' ', "_")),
     }
 }
 
-fn sender_option<S: Default + std::fmt::Debug>(parallel: bool) -> SenderOption<S> {
+fn sender_option<S: Default + std::fmt::Debug>(pm: PM, to: Option<u32>) -> SenderOption<S> {
     SenderOption {
         send_interval: Duration::ZERO,
         receive_interval: Duration::ZERO,
-        // acknowledgements of the emulated devices arrive with the first receive; a short explicit
-        // timeout only keeps a broken implementation from stalling the run
-        timeout: Some(Duration::from_millis(5)),
-        parallel: if parallel { ParallelMode::On } else { ParallelMode::Off },
+        timeout: to.map(|t| Duration::from_millis(t as u64)),
+        parallel: pm.mode(),
         sleeper: S::default(),
     }
 }
@@ -481,97 +812,147 @@ thread_local! {
     static RT: tokio::runtime::Runtime = tokio::runtime::Builder::new_current_thread().enable_time().build().unwrap();
 }
 
-/// one execution of the case on a fresh controller
+type AController = autd3::r#async::controller::Controller<FaultLink>;
+enum Ctl {
+    Sync(Controller<FaultLink>),
+    Async(AController),
+}
+impl Ctl {
+    fn open(n: usize, is_async: bool) -> Ctl {
+        if is_async {
+            Ctl::Async(RT.with(|rt| rt.block_on(AController::open((0..n).map(|_| AUTD3::default()), FaultLink::new()))).expect("open"))
+        } else {
+            Ctl::Sync(Controller::open((0..n).map(|_| AUTD3::default()), FaultLink::new()).expect("open"))
+        }
+    }
+    fn geometry(&self) -> &Geometry {
+        match self {
+            Ctl::Sync(a) => a.geometry(),
+            Ctl::Async(a) => a.geometry(),
+        }
+    }
+    fn geometry_mut(&mut self) -> &mut Geometry {
+        match self {
+            Ctl::Sync(a) => a.geometry_mut(),
+            Ctl::Async(a) => a.geometry_mut(),
+        }
+    }
+    fn link(&self) -> &FaultLink {
+        match self {
+            Ctl::Sync(a) => a.link(),
+            Ctl::Async(a) => a.link(),
+        }
+    }
+    fn link_mut(&mut self) -> &mut FaultLink {
+        match self {
+            Ctl::Sync(a) => a.link_mut(),
+            Ctl::Async(a) => a.link_mut(),
+        }
+    }
+    fn flags(&self) -> Vec<bool> {
+        self.geometry().iter().map(|d| d.enable).collect()
+    }
+    fn snaps(&self) -> Vec<Snap> {
+        self.link().cpus().iter().map(Snap::take).collect()
+    }
+    /// closed link: `Drop` returns before it sends anything (or looks for a runtime)
+    fn close(mut self) {
+        let _ = Link::close(self.link_mut());
+    }
+    /// one step (enable mask, then `group_send` / plain `send` under the step's link fault); each call
+    /// into the crates is its own `block_on`, so that a panic is caught in the async case like in the sync one
+    fn step(&mut self, c: &Case, log: &VisitLog) -> String {
+        use autd3::r#async::controller::AsyncSleeper;
+        let n = c.n();
+        for i in 0..n {
+            self.geometry_mut()[i].enable = c.en[i];
+        }
+        *log.lock().unwrap() = Logs::default();
+        let map: HashMap<u8, BoxedDatagram> = c.map.iter().map(|(k, d)| (*k, d.build(*k, log))).collect();
+        let plain = c.plain.map(|d| d.build(0, log));
+        let km = c.km.clone();
+        let key_map = move |dev: &Device| km[dev.idx()];
+        let (pm, to, ctl_api) = (c.pm_eff(), c.to_eff(), c.api.is_ctl());
+        self.link_mut().arm(c.fault);
+        let r: Result<Result<(), String>, String> = match self {
+            Ctl::Sync(autd) => guarded(|| match plain {
+                Some(d) => autd.sender(sender_option::<SpinSleeper>(pm, to)).send(d).map_err(|e| canon_derr(&e)),
+                None if ctl_api => autd.group_send(key_map, map).map_err(|e| canon_err(&e)),
+                None => autd.sender(sender_option::<SpinSleeper>(pm, to)).group_send(key_map, map).map_err(|e| canon_err(&e)),
+            }),
+            Ctl::Async(autd) => guarded(|| {
+                RT.with(|rt| {
+                    rt.block_on(async {
+                        match plain {
+                            Some(d) => autd.sender(sender_option::<AsyncSleeper>(pm, to)).send(d).await.map_err(|e| canon_derr(&e)),
+                            None if ctl_api => autd.group_send(key_map, map).await.map_err(|e| canon_err(&e)),
+                            None => autd.sender(sender_option::<AsyncSleeper>(pm, to)).group_send(key_map, map).await.map_err(|e| canon_err(&e)),
+                        }
+                    })
+                })
+            }),
+        };
+        self.link_mut().disarm();
+        match r {
+            Ok(Ok(())) => "ok".to_string(),
+            Ok(Err(e)) => e,
+            Err(_) => "panic".to_string(),
+        }
+    }
+}
+
+/// one execution of the case (history, then the observed call) on a fresh controller
 fn run_once(c: &Case) -> RunOut {
     let n = c.n();
     let log: VisitLog = Default::default();
-    let map: HashMap<u8, BoxedDatagram> = c.map.iter().map(|(k, d)| (*k, d.build(*k, &log))).collect();
-    let km = c.km.clone();
-    let key_map = move |dev: &Device| km[dev.idx()];
-    let (result, before, after, rounds, snap_before, snap_after);
-    if !c.api.is_async() {
-        let mut autd = Controller::open((0..n).map(|_| AUTD3::default()), FaultLink::new()).expect("open");
-        for i in 0..n {
-            autd.geometry_mut()[i].enable = c.en[i];
-        }
-        before = autd.geometry().iter().map(|d| d.enable).collect::<Vec<_>>();
-        snap_before = autd.link().cpus().iter().map(Snap::take).collect::<Vec<_>>();
-        autd.link_mut().arm(c.fault);
-        let r = guarded(|| match c.api {
-            Api::Sync => autd.sender(sender_option::<SpinSleeper>(c.parallel)).group_send(key_map, map),
-            _ => autd.group_send(key_map, map),
-        });
-        autd.link_mut().disarm();
-        result = match r {
-            Ok(Ok(())) => "ok".to_string(),
-            Ok(Err(e)) => canon_err(&e),
-            Err(_) => "panic".to_string(),
-        };
-        after = autd.geometry().iter().map(|d| d.enable).collect::<Vec<_>>();
-        rounds = autd.link().rounds.clone();
-        snap_after = autd.link().cpus().iter().map(Snap::take).collect::<Vec<_>>();
-        let _ = Link::close(autd.link_mut());
-    } else {
-        use autd3::r#async::controller::{AsyncSleeper, Controller as AController};
-        // each step is its own `block_on`, so that a panic inside `group_send` is caught like in the sync case
-        let mut autd = RT.with(|rt| rt.block_on(AController::open((0..n).map(|_| AUTD3::default()), FaultLink::new()))).expect("open");
-        for i in 0..n {
-            autd.geometry_mut()[i].enable = c.en[i];
-        }
-        before = autd.geometry().iter().map(|d| d.enable).collect::<Vec<_>>();
-        snap_before = autd.link().cpus().iter().map(Snap::take).collect::<Vec<_>>();
-        autd.link_mut().arm(c.fault);
-        let r = guarded(|| {
-            RT.with(|rt| {
-                rt.block_on(async {
-                    match c.api {
-                        Api::Async => autd.sender(sender_option::<AsyncSleeper>(c.parallel)).group_send(key_map, map).await,
-                        _ => autd.group_send(key_map, map).await,
-                    }
-                })
-            })
-        });
-        autd.link_mut().disarm();
-        result = match r {
-            Ok(Ok(())) => "ok".to_string(),
-            Ok(Err(e)) => canon_err(&e),
-            Err(_) => "panic".to_string(),
-        };
-        after = autd.geometry().iter().map(|d| d.enable).collect::<Vec<_>>();
-        rounds = autd.link().rounds.clone();
-        snap_after = autd.link().cpus().iter().map(Snap::take).collect::<Vec<_>>();
-        // closed link: `Drop` returns before it looks for a runtime
-        let _ = Link::close(autd.link_mut());
+    let mut ctl = Ctl::open(n, c.api.is_async());
+    let mut hist_results = vec![];
+    for h in &c.hist {
+        hist_results.push(ctl.step(h, &log));
     }
-    let visited = log.lock().unwrap().clone();
-    RunOut { result, before, after, visited, rounds, snap_before, snap_after }
+    for i in 0..n {
+        ctl.geometry_mut()[i].enable = c.en[i];
+    }
+    let before = ctl.flags();
+    let snap_before = ctl.snaps();
+    let result = ctl.step(c, &log);
+    let after = ctl.flags();
+    let rounds = ctl.link().rounds.clone();
+    let polls = ctl.link().polls.clone();
+    let snap_after = ctl.snaps();
+    ctl.close();
+    let l = log.lock().unwrap().clone();
+    RunOut { result, hist_results, before, after, visited: l.gens, gain_par: l.gain_par, packs: l.packs, rounds, polls, snap_before, snap_after }
 }
 
-/// reference: fresh controller, enabled set = `mask`, plain `send` of the datagram; snapshot of all devices
-fn reference(cache: &mut HashMap<(Vec<bool>, DgSpec), Option<Vec<Snap>>>, mask: &[bool], d: DgSpec) -> Option<Vec<Snap>> {
-    if let Some(r) = cache.get(&(mask.to_vec(), d)) {
+type RefKey = (String, Vec<bool>, DgSpec);
+/// reference: fresh controller, the same history, then enabled set = `mask` and a plain `send` of the
+/// datagram (serial, 5 ms sender timeout, no link fault); snapshot of all devices
+fn reference(cache: &mut HashMap<RefKey, Option<Vec<Snap>>>, c: &Case, mask: &[bool], d: DgSpec) -> Option<Vec<Snap>> {
+    let key = (c.hist_sig(), mask.to_vec(), d);
+    if let Some(r) = cache.get(&key) {
         return r.clone();
     }
-    let n = mask.len();
     let log: VisitLog = Default::default();
-    let mut autd = Controller::open((0..n).map(|_| AUTD3::default()), FaultLink::new()).expect("open");
-    for i in 0..n {
-        autd.geometry_mut()[i].enable = mask[i];
+    let mut ctl = Ctl::open(mask.len(), false);
+    for h in &c.hist {
+        let mut h = h.clone();
+        h.api = if h.api.is_ctl() { Api::SyncCtl } else { Api::Sync };
+        ctl.step(&h, &log);
     }
-    let r = guarded(|| autd.sender(sender_option::<SpinSleeper>(false)).send(d.build(0, &log)));
-    let out = match r {
-        Ok(Ok(())) => Some(autd.link().cpus().iter().map(Snap::take).collect::<Vec<_>>()),
-        _ => None,
-    };
-    let _ = Link::close(autd.link_mut());
-    cache.insert((mask.to_vec(), d), out.clone());
+    let step = Case { en: mask.to_vec(), km: vec![None; mask.len()], map: vec![], fault: Fault::None, api: Api::Sync, pm: PM::Off, to: Some(5), plain: Some(d), hist: vec![] };
+    let out = if ctl.step(&step, &log) == "ok" { Some(ctl.snaps()) } else { None };
+    ctl.close();
+    cache.insert(key, out.clone());
     out
 }
 
 struct Ctx {
     out: Out,
     sampled: BTreeSet<String>,
-    refs: HashMap<(Vec<bool>, DgSpec), Option<Vec<Snap>>>,
+    refs: HashMap<RefKey, Option<Vec<Snap>>>,
+    /// the same case without link fault: (result, rounds, observations)
+    nofault: HashMap<String, (String, Vec<Vec<String>>, Vec<String>)>,
     cap_hits: u32,
     runs: u64,
     start: std::time::Instant,
@@ -583,11 +964,14 @@ fn oracle(ctx: &mut Ctx, c: &Case, order: &[u8], r: &RunOut) {
     let n = c.n();
     let id = format!("{} order={}", c.sig(), join(order, ",")).replace(' ', ";");
     let replay = || {
-        vec![
-            c.line(order),
-            format!("devices={n} enabled-before={} key_map(idx)={} datagrams={{{}}} link-fault={} api={} observed-iteration-order={}", bits(&c.en), c.km_token(), c.map_token(), c.fault.token(), c.api.token(), join(order, ",")),
-            format!("result={} enable-after={}", r.result, bits(&r.after)),
-        ]
+        let mut v: Vec<String> = c.hist.iter().enumerate().map(|(j, h)| h.line(&h.used_keys(), j > 0)).collect();
+        v.push(c.line(order, !c.hist.is_empty()));
+        if !c.hist.is_empty() {
+            v.push(format!("history on the same controller: {} -> results {:?}", c.hist_sig(), r.hist_results));
+        }
+        v.push(format!("devices={n} enabled-before={} key_map(idx)={} datagrams={{{}}} link-fault={} api={} sender-timeout={} parallel-mode={} observed-iteration-order={}", bits(&c.en), c.km_token(), c.map_token(), c.fault.token(), c.api.token(), c.to_token(), c.pm_eff().token(), join(order, ",")));
+        v.push(format!("result={} enable-after={} polls-per-send={:?}", r.result, bits(&r.after), r.polls));
+        v
     };
     let viol = |ctx: &mut Ctx, kind: &str, what: String| {
         ctx.out.violation(format!("group:{kind}:{id}"), what, replay());
@@ -631,10 +1015,23 @@ fn oracle(ctx: &mut Ctx, c: &Case, order: &[u8], r: &RunOut) {
     if key_error && r.rounds.iter().any(|x| !x.is_empty()) {
         viol(ctx, "keys", format!("`{}` but frames were transmitted: {:?}", r.result, r.rounds));
     }
-    // (3) unmapped and disabled devices are untouched — on every exit
+    // (3) unmapped and disabled devices are untouched — on every exit, whatever happened on the controller before
     for i in 0..n {
         let mapped = c.en[i] && c.km[i].is_some();
         if !mapped || key_error {
+            let got: Vec<&String> = r.rounds.iter().flatten().filter(|f| f.starts_with(&format!("{i}:"))).collect();
+            let first_only = r.rounds.first().map(|x| x.iter().filter(|f| f.starts_with(&format!("{i}:"))).count()).unwrap_or(0) == 1 && got.len() == 1;
+            let unsent = c.hist.iter().find(|h| h.may_leave_unsent_frames());
+            if let (Some(h), true, false) = (unsent, first_only, key_error) {
+                // one root cause, one key: a frame packed by an earlier, failed call is still in the tx slot
+                let cause = if matches!(h.fault, Fault::Send(_)) { "link-send-failure" } else { "pack-failure" };
+                ctx.out.violation(
+                    format!("group:unsent-frame-delivered-later:{cause}"),
+                    format!("an earlier call on the controller failed ({}) after it had packed a frame for device {i} that was never transmitted; the observed group_send does not address device {i} ({}), yet its first transmission delivers that frame: {} -> {} (frame {})", if cause == "pack-failure" { "pack error of another device" } else { "Link::send error" }, if c.en[i] { "mapped to no key" } else { "disabled" }, r.snap_before[i].obs(), r.snap_after[i].obs(), got[0]),
+                    replay(),
+                );
+                continue;
+            }
             if r.snap_after[i] != r.snap_before[i] {
                 viol(ctx, "untouched", format!("device {i} ({}) changed state: {} -> {} (ack {} -> {})", if mapped { "mapped, but the call failed before transmission" } else if c.en[i] { "mapped to no key" } else { "disabled" }, r.snap_before[i].obs(), r.snap_after[i].obs(), r.snap_before[i].ack, r.snap_after[i].ack));
             }
@@ -643,13 +1040,13 @@ fn oracle(ctx: &mut Ctx, c: &Case, order: &[u8], r: &RunOut) {
             }
         }
     }
-    // (2) on Ok: state of every mapped device = plain send of its datagram (group enabled / alone)
+    // (2) on Ok: state of every mapped device = plain send of its datagram (group enabled / alone), after the same history
     if r.result == "ok" {
         for i in 0..n {
             if let (true, Some(k)) = (c.en[i], c.km[i]) {
                 let Some(d) = c.dg(k) else { continue };
                 let gm = c.group_mask(k);
-                match reference(&mut ctx.refs, &gm, d) {
+                match reference(&mut ctx.refs, c, &gm, d) {
                     Some(rf) => {
                         if rf[i].no_ack() != r.snap_after[i].no_ack() {
                             viol(ctx, "equiv", format!("device {i} (key {k}, datagram {}): state {} differs from the state {} after sending the datagram to its group alone", d.token(), r.snap_after[i].obs(), rf[i].obs()));
@@ -657,22 +1054,23 @@ fn oracle(ctx: &mut Ctx, c: &Case, order: &[u8], r: &RunOut) {
                     }
                     None => viol(ctx, "equiv", format!("group_send is Ok but sending {} to group {} alone fails", d.token(), bits(&gm))),
                 }
-                let alone: Vec<bool> = (0..n).map(|j| j == i).collect();
-                if let Some(rf) = reference(&mut ctx.refs, &alone, d) {
-                    if rf[i].core() != r.snap_after[i].core() {
-                        viol(ctx, "equiv", format!("device {i} (key {k}, datagram {}): state {} differs from the state {} after sending the datagram to that device alone", d.token(), r.snap_after[i].obs(), rf[i].obs()));
+                // a real geometry-wide gain legitimately depends on the other devices of the group
+                if d.kind != Kind::Holo {
+                    let alone: Vec<bool> = (0..n).map(|j| j == i).collect();
+                    if let Some(rf) = reference(&mut ctx.refs, c, &alone, d) {
+                        if rf[i].core() != r.snap_after[i].core() {
+                            viol(ctx, "equiv", format!("device {i} (key {k}, datagram {}): state {} differs from the state {} after sending the datagram to that device alone", d.token(), r.snap_after[i].obs(), rf[i].obs()));
+                        }
                     }
                 }
             }
         }
-        // every visited generator saw exactly its group enabled
-        for (k, seen) in &r.visited {
-            if let Some(m) = seen {
-                let gm = c.group_mask(*k).iter().enumerate().fold(0u32, |m, (i, &b)| if b { m | 1 << i } else { m });
-                if *m != gm {
-                    viol(ctx, "equiv", format!("the generator of key {k} saw enabled set {m:#b}, its group is {gm:#b}"));
-                }
-            }
+    }
+    // every generator that was built saw exactly its group enabled
+    for (k, m, _) in &r.visited {
+        let gm = c.group_mask(*k).iter().enumerate().fold(0u32, |m, (i, &b)| if b { m | 1 << i } else { m });
+        if *m != gm {
+            viol(ctx, "equiv", format!("the generator of key {k} saw enabled set {m:#b}, its group is {gm:#b}"));
         }
     }
     // on every exit: a mapped device has received only frames of its own datagram, in order
@@ -680,16 +1078,85 @@ fn oracle(ctx: &mut Ctx, c: &Case, order: &[u8], r: &RunOut) {
         if let (true, Some(k)) = (c.en[i], c.km[i]) {
             let mine: Vec<&String> = r.rounds.iter().flatten().filter(|f| f.starts_with(&format!("{i}:"))).collect();
             if let Some(d) = c.dg(k) {
-                let pre = match d.kind {
-                    Kind::Gain => format!("{i}:g{}.", d.id),
-                    Kind::Mod => format!("{i}:m{}#", d.id),
+                let ok = |f: &String| match d.kind {
+                    // gain frames carry (id, mask, device + 1)
+                    Kind::Gain => f.starts_with(&format!("{i}:g{}.", d.id)) && f.ends_with(&format!(".{}", i + 1)),
+                    Kind::Mod | Kind::Tuple => f.starts_with(&format!("{i}:m{}#", d.id)) || (d.kind == Kind::Tuple && f.starts_with(&format!("{i}:g{}.", d.tuple_gain_id())) && f.ends_with(&format!(".{}", i + 1))),
+                    Kind::Holo => f.starts_with(&format!("{i}:g")),
                 };
-                if mine.iter().any(|f| !f.starts_with(&pre)) {
+                if mine.iter().any(|f| !ok(f)) {
                     viol(ctx, "equiv", format!("device {i} (key {k}, datagram {}) was sent {:?}", d.token(), mine));
                 }
             } else if !mine.is_empty() {
                 viol(ctx, "untouched", format!("device {i} (key {k} has no datagram) was sent {:?}", mine));
             }
+        }
+    }
+    // an operation is packed for (and into the slot of) the device it was generated for
+    if let Some((g, p, _)) = r.packs.iter().find(|(g, p, _)| g != p) {
+        viol(ctx, "slot", format!("the operation generated for device {g} was packed into the frame of device {p}"));
+    }
+    // ---- `datagram_option` aggregation and the `parallel` arguments (oracle; also part of the `opt` line) ----
+    let pm = c.pm_eff();
+    for (k, _, par) in &r.visited {
+        if let Some(d) = c.dg(*k) {
+            let size = c.group_mask(*k).iter().filter(|b| **b).count();
+            let want = pm.is_parallel(size, d.option().1);
+            if *par != want {
+                viol(ctx, "parallel", format!("the generator of key {k} (group of {size} devices, parallel_threshold {}, mode {}) was built with parallel = {par}", if d.option().1 == THR_MAX { "usize::MAX".to_string() } else { d.option().1.to_string() }, pm.token()));
+            }
+        }
+    }
+    for (k, par) in &r.gain_par {
+        if r.visited.iter().find(|v| v.0 == *k).map(|v| v.2) != Some(*par) {
+            viol(ctx, "parallel", format!("Gain::init_full of key {k} was told parallel = {par}, operation_generator something else"));
+        }
+    }
+    if !r.packs.is_empty() {
+        let thr = c.map.iter().map(|(_, d)| d.option().1).min().unwrap_or(THR_MAX);
+        let enabled = c.en.iter().filter(|b| **b).count();
+        let want = if pm.is_parallel(enabled, thr) { "1" } else { "0" };
+        if r.final_parallel() != want {
+            viol(ctx, "parallel", format!("{enabled} enabled devices, smallest parallel_threshold {}, mode {}: the frames must be packed {}, but pack ran {}", if thr == THR_MAX { "usize::MAX".to_string() } else { thr.to_string() }, pm.token(), if want == "1" { "on the pool" } else { "serially" }, match r.final_parallel() { "1" => "on the pool", "0" => "on the calling thread", _ => "on both" }));
+        }
+    }
+    // acknowledgement handling: polls per transmitted frame set under withheld acknowledgements
+    if c.fault.withholds() && c.healthy() {
+        let eff = c.eff_timeout();
+        let mut nf = c.clone();
+        nf.fault = Fault::None;
+        let nfk = nf.sig();
+        if !ctx.nofault.contains_key(&nfk) {
+            let x = run_once(&nf);
+            ctx.runs += 1;
+            ctx.nofault.insert(nfk.clone(), (x.result.clone(), x.rounds.clone(), x.snap_after.iter().map(|s| s.obs()).collect()));
+        }
+        let (nres, nrounds, nobs) = ctx.nofault[&nfk].clone();
+        let obs: Vec<String> = r.snap_after.iter().map(|s| s.obs()).collect();
+        let dgs = c.map_token();
+        match c.fault {
+            Fault::Delay(k) => {
+                if (r.result.clone(), r.rounds.clone(), obs) != (nres.clone(), nrounds.clone(), nobs.clone()) {
+                    viol(ctx, "timeout", format!("acknowledgements arrive with the {}th receive; effective timeout {eff} ms ({dgs}): result {} frames {:?}, without the delay: {nres} {nrounds:?}", k + 1, r.result, r.rounds));
+                }
+                // a transmission that carries no new frame is acknowledged already
+                let want: Vec<usize> = r.rounds.iter().map(|x| if eff == 0 || x.is_empty() { 1 } else { k + 1 }).collect();
+                if r.polls != want {
+                    viol(ctx, "timeout", format!("effective timeout {eff} ms = max over {dgs} (sender: {}), acknowledgements arrive with receive #{}: the frame sets must be followed by {want:?} receive(s) before the next one goes out, observed {:?}", c.to_token(), k + 1, r.polls));
+                }
+            }
+            Fault::NoAck(s0) => {
+                // the first transmission from `s0` on that carries a new frame is the one never acknowledged
+                let s = (s0..nrounds.len()).find(|j| !nrounds[*j].is_empty()).unwrap_or(nrounds.len());
+                if eff == 0 || nrounds.len() <= s {
+                    if (r.result.clone(), r.rounds.clone(), obs) != (nres.clone(), nrounds.clone(), nobs.clone()) {
+                        viol(ctx, "timeout", format!("effective timeout {eff} ms ({dgs}): acknowledgements must not be waited for, but result {} frames {:?}; with acknowledgements: {nres} {nrounds:?}", r.result, r.rounds));
+                    }
+                } else if r.result != "err:confirm" || r.rounds[..] != nrounds[..=s] {
+                    viol(ctx, "timeout", format!("effective timeout {eff} ms = max over {dgs} (sender: {}) and frame set #{s} is never acknowledged: expected ConfirmResponseFailed after {} transmissions, got {} after {:?}", c.to_token(), s + 1, r.result, r.rounds));
+                }
+            }
+            _ => {}
         }
     }
 }
@@ -747,11 +1214,11 @@ fn run_case(ctx: &mut Ctx, c: &Case, tag: &str) {
         let r = run_once(c);
         let pre = r.order_prefix();
         if let Some(prev) = seen.get(&pre) {
-            if prev.answers() != r.answers() {
+            if prev.answers() != r.answers() || prev.hist_results != r.hist_results {
                 ctx.out.violation(
                     format!("group:nondeterministic:{} order={}", c.sig(), join(&pre, ",")).replace(' ', ";"),
                     format!("two runs with the same iteration order differ: {:?} vs {:?}", prev.answers(), r.answers()),
-                    vec![c.line(&pre)],
+                    vec![c.line(&pre, false)],
                 );
             }
         } else {
@@ -763,9 +1230,10 @@ fn run_case(ctx: &mut Ctx, c: &Case, tag: &str) {
     }
     if !expected.iter().all(|e| seen.contains_key(e)) {
         ctx.cap_hits += 1;
-        ctx.out.count("order-classes-not-all-seen");
+        ctx.out.count(&format!("order-classes-not-all-seen:{tag}:{}", c.sig()));
     }
     ctx.out.count_n("order-classes", seen.len() as u64);
+    let modelled = c.modelled();
     for (pre, r) in &seen {
         // full order handed to the model: the observed prefix, then the unvisited keys ascending
         let mut order = pre.clone();
@@ -774,19 +1242,29 @@ fn run_case(ctx: &mut Ctx, c: &Case, tag: &str) {
                 order.push(*k);
             }
         }
-        let line = c.line(&order);
+        let line = c.line(&order, !c.hist.is_empty());
         let a = r.answers();
-        ctx.out.line(&line, &a[0]);
-        ctx.out.line("flags", &a[1]);
-        ctx.out.line("visited", &a[2]);
-        ctx.out.line("log", &a[3]);
-        ctx.out.line("obs", &a[4]);
+        if modelled {
+            // history steps: their result does not depend on the iteration order (by construction of
+            // the histories); the model runs them with the keys ascending
+            for (j, h) in c.hist.iter().enumerate() {
+                ctx.out.line(&h.line(&h.used_keys(), j > 0), &format!("R {}", r.hist_results[j]));
+            }
+            ctx.out.line(&line, &a[0]);
+            ctx.out.line("flags", &a[1]);
+            ctx.out.line("visited", &a[2]);
+            ctx.out.line("log", &a[3]);
+            ctx.out.line("obs", &a[4]);
+            ctx.out.line("opt", &a[5]);
+        } else {
+            ctx.out.count("oracle-only (not handed to the model: tuple / holo datagram, or a history that leaves unsent frames)");
+        }
         // one written-out sample per generator (the first few generators)
         if ctx.sampled.insert(tag.split('-').next().unwrap_or(tag).to_string()) {
-            ctx.out.sample(format!("[{tag}] {line} -> {}", a.join(" / ")));
+            ctx.out.sample(format!("[{tag}] {}{line} -> {}", c.hist_sig(), a.join(" / ")));
         }
-        let trivial = used.is_empty() && c.map.is_empty();
-        ctx.out.case(if trivial { None } else { Some(fnv64(format!("{} {}", line, tag).as_bytes())) });
+        let trivial = used.is_empty() && c.map.is_empty() && c.hist.is_empty();
+        ctx.out.case(if trivial { None } else { Some(fnv64(format!("{}{} {}", c.hist_sig(), line, tag).as_bytes())) });
         ctx.out.count(&format!("result:{}", r.result.split(':').take(2).collect::<Vec<_>>().join(":")));
         ctx.out.count(&format!("keys-used:{}", used.len()));
         ctx.out.count(&format!("devices:{}", c.n()));
@@ -794,6 +1272,30 @@ fn run_case(ctx: &mut Ctx, c: &Case, tag: &str) {
         ctx.out.count(&format!("gen:{tag}"));
         if c.fault != Fault::None {
             ctx.out.count(&format!("fault:{}", c.fault.token()));
+        }
+        // the new input dimensions
+        ctx.out.count(&format!("sender-timeout:{}", match c.to_eff() { None => "none (datagrams decide)", Some(0) => "0", Some(_) => ">0" }));
+        ctx.out.count(&format!("parallel-mode:{}", c.pm_eff().token()));
+        if c.map.iter().any(|(_, d)| d.opt.is_some()) {
+            let ts: BTreeSet<u32> = c.map.iter().map(|(_, d)| d.option().0).collect();
+            ctx.out.count(&format!("datagram-timeouts:{}", if ts.len() > 1 { if ts.contains(&0) { "mixed, one of them 0" } else { "mixed" } } else if ts.contains(&0) { "all 0" } else { "all equal, >0" }));
+            ctx.out.count("explicit-datagram-option");
+        }
+        for (_, _, par) in &r.visited {
+            ctx.out.count(&format!("generator-built-with-parallel:{par}"));
+        }
+        ctx.out.count(&format!("frames-packed:{}", match r.final_parallel() { "1" => "on the rayon pool", "0" => "serially", "-" => "nothing packed", _ => "both" }));
+        if !c.hist.is_empty() {
+            ctx.out.count(&format!("history-steps:{}", c.hist.len()));
+            for (h, res) in c.hist.iter().zip(&r.hist_results) {
+                ctx.out.count(&format!("history-step:{}:{}", if h.plain.is_some() { "send" } else { "group_send" }, res.split(':').take(2).collect::<Vec<_>>().join(":")));
+            }
+            if c.hist.iter().any(|h| h.en != c.en) {
+                ctx.out.count("history:mask-changed-before-the-observed-call");
+            }
+        }
+        for (_, d) in &c.map {
+            ctx.out.count(&format!("datagram-kind:{:?}", d.kind));
         }
         if let Some(p) = pre.iter().position(|k| c.dg(*k).map(|d| d.fail).unwrap_or(true)) {
             ctx.out.count(&format!("loop-stops-at-position:{p}/{}", used.len()));
@@ -847,10 +1349,10 @@ fn std_dg(k: u8) -> DgSpec {
 }
 
 pub fn run(args: &Args) {
-    let mut ctx = Ctx { out: Out::new(&args.out), sampled: BTreeSet::new(), refs: HashMap::new(), cap_hits: 0, runs: 0, start: std::time::Instant::now(), budget: Duration::from_secs(if args.tier == "thorough" { 600 } else { 90 }) };
+    let mut ctx = Ctx { out: Out::new(&args.out), sampled: BTreeSet::new(), refs: HashMap::new(), nofault: HashMap::new(), cap_hits: 0, runs: 0, start: std::time::Instant::now(), budget: Duration::from_secs(if args.tier == "thorough" { 600 } else { 90 }) };
     let thorough = args.tier == "thorough";
     let mut rng = Rng::new(args.seed ^ 0xC13);
-    let base = |en: Vec<bool>, km: Vec<Option<u8>>, map: Vec<(u8, DgSpec)>| Case { en, km, map, fault: Fault::None, api: Api::Sync, parallel: false };
+    let base = |en: Vec<bool>, km: Vec<Option<u8>>, map: Vec<(u8, DgSpec)>| Case { en, km, map, fault: Fault::None, api: Api::Sync, pm: PM::Off, to: Some(5), plain: None, hist: vec![] };
     let apis = [Api::Sync, Api::Async];
 
     // ---- corpus first: DESIGN §6 F11 (key without datagram; generator error) on both copies ----
@@ -875,6 +1377,24 @@ pub fn run(args: &Args) {
         c.api = api;
         c.fault = Fault::Send(0);
         run_case(&mut ctx, &c, "corpus-repo-tests");
+    }
+    // gap found by the coverage review (two-call history): a frame packed by a failed call stays in the tx slot
+    for api in [Api::Sync, Api::Async] {
+        for (en2, km2) in [(vec![true], vec![None]), (vec![false], vec![Some(0)])] {
+            let mut h = base(vec![true], vec![Some(0)], vec![(0, DgSpec::g(17))]);
+            h.fault = Fault::Send(0);
+            h.api = api;
+            let mut c = base(en2, km2, vec![]);
+            c.api = api;
+            c.hist = vec![h];
+            run_case(&mut ctx, &c, "corpus-unsent-frame-delivered-later");
+        }
+        let mut h = base(vec![true; 2], vec![Some(0), Some(1)], vec![(0, DgSpec::g(17)), (1, DgSpec::m(61, 1))]);
+        h.api = api;
+        let mut c = base(vec![true; 2], vec![None, Some(0)], vec![(0, DgSpec::g(18))]);
+        c.api = api;
+        c.hist = vec![h];
+        run_case(&mut ctx, &c, "corpus-unsent-frame-delivered-later");
     }
     // pack-time failures (modulation too short / too long: the latter fails after 106 frames went out)
     for api in apis {
@@ -908,7 +1428,7 @@ pub fn run(args: &Args) {
                 // the rayon pack path must not change anything
                 if rng.chance(1, if thorough { 4 } else { 16 }) {
                     c.api = *rng.pick(&apis);
-                    c.parallel = true;
+                    c.pm = PM::On;
                     run_case(&mut ctx, &c, "assignments-parallel-pack");
                 }
             }
@@ -1061,14 +1581,189 @@ pub fn run(args: &Args) {
             x if x % 2 == 0 => Api::Sync,
             _ => Api::Async,
         };
-        c.parallel = matches!(c.api, Api::Sync | Api::Async) && rng.chance(1, 4) && c.map.iter().all(|(_, d)| d.healthy());
+        c.pm = if matches!(c.api, Api::Sync | Api::Async) && rng.chance(1, 4) && c.map.iter().all(|(_, d)| d.healthy()) { PM::On } else { PM::Off };
         run_case(&mut ctx, &c, "random");
+    }
+
+    // ---- `datagram_option` aggregation: timeouts under withheld acknowledgements, parallel thresholds ----
+    // A positive timeout is 10 s where the acknowledgements do arrive (after k more receives) and 3 ms
+    // where they never do, so nothing depends on how fast the machine is: what is observed is the number
+    // of receives per transmitted frame set and Ok / ConfirmResponseFailed.
+    const BIG: u32 = 10_000;
+    let all_apis = [Api::Sync, Api::Async, Api::SyncCtl, Api::AsyncCtl];
+    let pos_of = |f: Fault| if matches!(f, Fault::NoAck(_)) { 3u32 } else { BIG };
+    for api in all_apis {
+        for (t0, t1) in [(0u32, 0u32), (0, 1), (1, 0), (1, 1), (2, 1)] {
+            for to in [None, Some(0u32), Some(1)] {
+                if api.is_ctl() && to.is_some() {
+                    continue;
+                }
+                for fault in [Fault::Delay(2), Fault::NoAck(0), Fault::NoAck(1), Fault::None] {
+                    let pos = pos_of(fault);
+                    let mut c = base(vec![true; 3], vec![Some(0), Some(1), Some(0)], vec![(0, DgSpec::g(17).with(t0 * pos, THR_MAX)), (1, DgSpec::m(34, 900).with(t1 * pos, THR_MAX))]);
+                    c.api = api;
+                    c.to = to.map(|t| t * pos);
+                    c.fault = fault;
+                    run_case(&mut ctx, &c, "option-timeouts");
+                }
+            }
+        }
+    }
+    {
+        let thrs = [0usize, 1, 2, 3, THR_MAX];
+        for en in [vec![true; 3], vec![true, true, false], vec![true, false, true]] {
+            for &p0 in &thrs {
+                for &p1 in &thrs {
+                    for (api, pm) in [(Api::Sync, PM::Auto), (Api::Async, PM::Auto), (Api::SyncCtl, PM::Auto), (Api::AsyncCtl, PM::Auto), (Api::Sync, PM::On), (Api::Async, PM::Off)] {
+                        if !(thorough || en[2] || api == Api::Sync || rng.chance(1, 3)) {
+                            continue;
+                        }
+                        let mut c = base(en.clone(), vec![Some(0), Some(0), Some(1)], vec![(0, DgSpec::g(21).with(5, p0)), (1, DgSpec::m(36, 300).with(5, p1))]);
+                        if !en[2] {
+                            c.map.truncate(1);
+                        }
+                        c.api = api;
+                        c.pm = pm;
+                        c.to = None;
+                        run_case(&mut ctx, &c, "option-parallel-thresholds");
+                    }
+                }
+            }
+        }
+    }
+    for _ in 0..(if thorough { 4000 } else { 400 }) {
+        let n = rng.range(1, 4) as usize;
+        let en: Vec<bool> = (0..n).map(|_| rng.chance(4, 5)).collect();
+        let km: Vec<Option<u8>> = (0..n).map(|_| if rng.chance(1, 6) { None } else { Some(rng.below(3) as u8) }).collect();
+        let mut c = base(en, km, vec![]);
+        c.fault = match rng.below(5) {
+            0 => Fault::None,
+            1 | 2 => Fault::Delay(rng.range(1, 3) as usize),
+            _ => Fault::NoAck(rng.below(3) as usize),
+        };
+        let pos = pos_of(c.fault);
+        for k in c.used_keys() {
+            let d = match rng.below(3) {
+                0 => DgSpec::g(100 + k),
+                1 => DgSpec::m(110 + k, *rng.pick(&[2usize, 254, 255, 900])),
+                _ => DgSpec::m(120 + k, 1500),
+            };
+            let t = *rng.pick(&[0, 0, pos, 2 * pos]);
+            let p = *rng.pick(&[0usize, 1, 2, 3, 4, THR_MAX]);
+            // one in four keeps the option the datagram declares itself (20 ms / 4, 200 ms / usize::MAX)
+            c.map.push((k, if rng.chance(1, 4) && !matches!(c.fault, Fault::NoAck(_)) { d } else { d.with(t, p) }));
+        }
+        c.api = *rng.pick(&all_apis);
+        c.pm = *rng.pick(&[PM::Auto, PM::Auto, PM::On, PM::Off]);
+        c.to = *rng.pick(&[None, None, Some(0), Some(pos)]);
+        run_case(&mut ctx, &c, "option-random");
+    }
+
+    // ---- histories: calls on the same controller before the observed one ----
+    // Every history step has at most one cause of failure, so its outcome does not depend on the
+    // iteration order. Steps that can leave a packed, never transmitted frame in a tx slot (link failure
+    // at send, pack failure behind an already packed device) are judged by the oracle only.
+    for n in 2..=3usize {
+        let km1: Vec<Option<u8>> = (0..n).map(|i| Some((i % 2) as u8)).collect();
+        let first = {
+            let mut c = base(vec![true; n], km1.clone(), vec![]);
+            c.map = c.used_keys().iter().map(|&k| (k, std_dg(k))).collect();
+            c
+        };
+        let with = |f: &dyn Fn(&mut Case)| {
+            let mut c = first.clone();
+            f(&mut c);
+            c
+        };
+        let plain = |d: DgSpec, fault: Fault, en: Vec<bool>| {
+            let mut c = base(en, vec![None; n], vec![]);
+            c.plain = Some(d);
+            c.fault = fault;
+            c
+        };
+        let mut half = vec![true; n];
+        half[0] = false;
+        let hists: Vec<(&str, Vec<Case>)> = vec![
+            ("ok", vec![first.clone()]),
+            ("ok-other-mask", vec![with(&|c| c.en = half.clone())]),
+            ("recv-failure", vec![with(&|c| c.fault = Fault::Recv(0))]),
+            ("unknown-key", vec![with(&|c| c.map.retain(|(k, _)| *k != 1))]),
+            ("generator-error", vec![with(&|c| c.map[0].1 = DgSpec::g(44).failing())]),
+            ("plain-send", vec![plain(DgSpec::g(77), Fault::None, vec![true; n])]),
+            ("plain-send-masked", vec![plain(DgSpec::m(78, 400), Fault::None, half.clone())]),
+            ("two-calls", vec![with(&|c| c.fault = Fault::Recv(1)), plain(DgSpec::g(79), Fault::None, vec![true; n])]),
+            ("send-failure", vec![with(&|c| c.fault = Fault::Send(0))]),
+            ("send-failure-second-frame", vec![with(&|c| c.fault = Fault::Send(1))]),
+            ("pack-failure", vec![with(&|c| c.map[1].1 = DgSpec::m(61, 1))]),
+            ("plain-send-failure", vec![plain(DgSpec::g(80), Fault::Send(0), vec![true; n])]),
+            ("send-failure-then-ok", vec![with(&|c| c.fault = Fault::Send(0)), first.clone()]),
+        ];
+        for (name, hist) in &hists {
+            for en in masks(n) {
+                for km in assignments(n, 2) {
+                    if !(thorough || n == 2 || en.iter().all(|b| *b) || rng.chance(1, 3)) {
+                        continue;
+                    }
+                    let mut c = base(en.clone(), km.clone(), vec![]);
+                    c.map = c.used_keys().iter().map(|&k| (k, std_dg(k + 3))).collect();
+                    c.api = *rng.pick(&all_apis);
+                    if rng.chance(1, 5) {
+                        c.fault = if rng.chance(1, 2) { Fault::Send(rng.below(2) as usize) } else { Fault::Recv(rng.below(2) as usize) };
+                    }
+                    c.hist = hist.iter().map(|h| { let mut h = h.clone(); h.api = c.api; h }).collect();
+                    run_case(&mut ctx, &c, &format!("history-{name}"));
+                }
+            }
+        }
+    }
+
+    // ---- datagram kinds the model does not know (oracle only): tuples, a real geometry-wide gain ----
+    for n in 1..=3usize {
+        for en in masks(n) {
+            for km in assignments(n, 3) {
+                if !(thorough || n <= 2 || rng.chance(1, 3)) {
+                    continue;
+                }
+                let mut c = base(en.clone(), km.clone(), vec![]);
+                let used = c.used_keys();
+                if used.is_empty() {
+                    continue;
+                }
+                let special = *rng.pick(&used);
+                for &k in &used {
+                    let d = if k == special || rng.chance(1, 2) {
+                        match rng.below(3) {
+                            0 => DgSpec::t(130 + k, *rng.pick(&[2usize, 100, 254, 300, 900])),
+                            1 => DgSpec::h(k + rng.below(20) as u8),
+                            _ => DgSpec::t(140 + k, 50),
+                        }
+                    } else {
+                        std_dg(k)
+                    };
+                    c.map.push((k, d));
+                }
+                c.api = *rng.pick(&all_apis);
+                c.pm = *rng.pick(&[PM::Off, PM::Off, PM::Auto, PM::On]);
+                match rng.below(8) {
+                    0 => c.fault = Fault::Send(rng.below(3) as usize),
+                    1 => c.fault = Fault::Recv(rng.below(3) as usize),
+                    2 => {
+                        if let Some(e) = c.map.iter_mut().find(|e| e.1.kind == Kind::Tuple) {
+                            e.1 = e.1.failing();
+                            c.pm = PM::Off;
+                        }
+                    }
+                    _ => {}
+                }
+                run_case(&mut ctx, &c, "datagram-kinds");
+            }
+        }
     }
 
     let runs = ctx.runs;
     ctx.out.count_n("group_send-executions", runs);
     ctx.out.finish(
         "group",
-        "a case is one execution of group_send for one (devices, prior enable mask, key assignment, datagram map, link fault, api copy, observed key-iteration order); non-trivial = some enabled device is mapped or the datagram map is non-empty; distinct by all of those",
+        "a case is one execution of group_send for one (history of earlier calls on the controller, devices, prior enable mask, key assignment, datagram map incl. each datagram's timeout / parallel_threshold, link behaviour (failure, delayed or missing acknowledgements), api copy, sender timeout and parallel mode, observed key-iteration order); non-trivial = some enabled device is mapped, the datagram map is non-empty or there is a history; distinct by all of those. Handed to the model: everything but tuple / holo datagrams and histories that leave unsent frames (counter `oracle-only`); timeouts, thresholds and modes are model inputs (`opt` line), the thread on which pack runs and per-device gain content are observed on the implementation",
     );
 }
